@@ -57,9 +57,11 @@ type Profile struct {
 	SeedBatch int
 	// no two distinct batch members with one uuid (C05/C06: the per-object
 	// before/after oracle would need the intermediate member values)
-	NoCopyItems bool
-	NoHugeStr   bool // no strings of several KiB (checks whose cost grows with object size)
-	FixedCfg    *Config
+	NoCopyItems  bool
+	WordShiftPct int  // percentage of programs with an update moving a word between two indexed string fields
+	NaNProbePct  int  // percentage of query ops whose probe is a float NaN (not judged, only traced)
+	NoHugeStr    bool // no strings of several KiB (checks whose cost grows with object size)
+	FixedCfg     *Config
 }
 
 // G carries the pools of values already used in the case, so that later ops
@@ -417,11 +419,20 @@ func (g *G) Doc() *Doc {
 		case 2:
 			d.Sl = []string{g.Str(), g.Str()}
 		}
-		switch rapid.IntRange(0, 2).Draw(g.t, "slp") {
+		switch rapid.IntRange(0, 3).Draw(g.t, "slp") {
 		case 1:
 			d.SlP = []*Inner{}
 		case 2:
 			d.SlP = []*Inner{g.inner(), nil}
+		case 3:
+			// one target referenced several times (C14 hands the database one shared pointer)
+			in := g.inner()
+			cp := *in
+			d.SlP = []*Inner{in, nil, &cp}
+			if d.Pt != nil && g.pct("ptshared") < 50 {
+				cp2 := *in
+				d.Pt = &cp2
+			}
 		}
 		switch rapid.IntRange(0, 2).Draw(g.t, "m") {
 		case 1:
@@ -794,6 +805,13 @@ func (g *G) Op() Op {
 		op.Ref = g.uni(64, "ref")
 	case "query":
 		op.Q = g.Query()
+		if g.p.NaNProbePct > 0 && g.pct("nanprobe") < g.p.NaNProbePct {
+			fl := []string{"F64", "F32", "In.F", "Pt.F"}
+			l := &op.Q.Leaves[g.uni(len(op.Q.Leaves), "nanleaf")]
+			l.Path = pickU(g, fl, "nanpath")
+			l.Op = pickU(g, []string{"=", "!=", "<", "<=", ">", ">="}, "nanop")
+			l.V = Val{K: "nan", Narrow: g.pct("nannarrow") < 30}
+		}
 	case "insertBad", "updateBad", "manyBad":
 		op.D = g.Doc()
 		op.D.H = Hooks{}
@@ -803,7 +821,7 @@ func (g *G) Op() Op {
 		}
 		op.Aux = map[string]interface{}{
 			"path": pickU(g, []string{"F64", "F32", "In.F", "Pt.F"}, "badpath"),
-			"val":  pickU(g, []string{"nan", "inf", "-inf", "nan", "badtime", "chan", "func"}, "badval"),
+			"val":  pickU(g, []string{"nan", "inf", "-inf", "nan", "badtime", "chan", "func", "hooknan", "hooknan"}, "badval"),
 		}
 	case "otherSwitch":
 		op.Ref = g.uni(64, "ref")
@@ -886,7 +904,10 @@ func (g *G) Op() Op {
 		burst := g.pct("burst") < 20 // many inserts: exceed the slice capacity
 		pairs := g.pct("pairs") < 35 // as many removals as insertions
 		for i := 0; i < n; i++ {
-			kind := pickU(g, []string{"insert", "insert", "insert", "update", "update", "delete", "delete", "resurrect", "many"}, "subkind")
+			kind := pickU(g, []string{"insert", "insert", "insert", "update", "update", "delete", "delete", "delete", "resurrect", "many", "repairLive"}, "subkind")
+			if i > 0 && op.Sub[len(op.Sub)-1].Op == "delete" && g.pct("repairafterdelete") < 25 {
+				kind = "repairLive" // (delete, Repair, insert: ids freed by the delete must stay retired)
+			}
 			if burst {
 				kind = "insert"
 			}
@@ -914,6 +935,9 @@ func (g *G) Op() Op {
 				}
 			case "delete", "resurrect":
 				sub.Ref = g.uni(64, "ref")
+				if kind == "delete" && g.pct("delnewest") < 40 {
+					sub.Ref = -1 // the most recently stored object
+				}
 			case "many":
 				sub.Items = g.Items(4)
 			}
@@ -977,7 +1001,33 @@ func (g *G) Program() *Program {
 		prog.Ops = append(prog.Ops, Op{Op: "bulk", Items: items, CSize: 1})
 	}
 	n := 1 + g.uni(g.p.MaxOps, "nops")
+	shiftAt := -1
+	var sp []PathInfo
+	for _, p := range g.cfg.IndexedPaths() {
+		if p.Class == ClsStr && !strings.HasPrefix(p.Path, "H.") {
+			sp = append(sp, p)
+		}
+	}
+	if len(sp) >= 2 && g.p.WordShiftPct > 0 && g.pct("wordshift") < g.p.WordShiftPct {
+		shiftAt = g.uni(n, "shiftat")
+	}
 	for i := 0; i < n; i++ {
+		if i == shiftAt {
+			// an update that moves a word from one indexed string field to another: the
+			// concatenation of the indexed values stays the same, every single value changes
+			a, b := sp[0], sp[1]
+			if len(sp) > 2 && g.pct("shiftpair") < 50 {
+				a, b = sp[len(sp)-2], sp[len(sp)-1]
+			}
+			w := pickU(g, [][3]string{{"a", "b", "c"}, {"Jean", "Paul", "B"}, {"x", "y", ""}}, "shiftwords")
+			sepv := pickU(g, []string{" ", " ", ",", "-"}, "shiftsep")
+			d := g.Doc()
+			d.H = Hooks{}
+			setLeaf(d, a, Val{K: "s", S: w[0] + sepv + w[1]})
+			setLeaf(d, b, Val{K: "s", S: w[2]})
+			prog.Ops = append(prog.Ops, Op{Op: "insert", D: d},
+				Op{Op: "update", Ref: -1, Sets: []FieldSet{{Path: a.Path, V: Val{K: "s", S: w[0]}}, {Path: b.Path, V: Val{K: "s", S: strings.TrimSpace(w[1] + sepv + w[2])}}}})
+		}
 		prog.Ops = append(prog.Ops, g.Op())
 	}
 	return prog
